@@ -70,15 +70,18 @@ PreOK(p) ==
 
 CommSigners(p) == {x.signer : x \in ToSet(p.comm)}
 NodeOf(p) ==
-    [started |-> p.started, round |-> p.round, acc |-> p.acc, lpr |-> p.lpr, lpv |-> p.lpv,
+    [started |-> p.started, round |-> p.round,
+     acc |-> [round |-> p.acc.round, value |-> p.acc.value, from |-> p.acc.from, data |-> p.acc.value],
+     lpr |-> p.lpr, lpv |-> p.lpv,
      decided |-> p.decided, dval |-> p.dval,
      dround |-> IF p.decided THEN p.round ELSE 0, cround |-> IF p.decided THEN p.round ELSE 0, cval |-> p.dval,
      dsigners |-> IF p.decided THEN CommSigners(p) ELSE {}, dlocal |-> FALSE, dfrom |-> 0,
      prep |-> SRV(p.prep), comm |-> SRV(p.comm), rc |-> RCFull(p.rc)]
 
-Proj(n) == [started |-> n.started, round |-> n.round, acc |-> n.acc, lpr |-> n.lpr, lpv |-> n.lpv,
+Acc3(a) == [round |-> a.round, value |-> a.value, from |-> a.from]
+Proj(n) == [started |-> n.started, round |-> n.round, acc |-> Acc3(n.acc), lpr |-> n.lpr, lpv |-> n.lpv,
             decided |-> n.decided, dval |-> n.dval, prep |-> n.prep, comm |-> n.comm, rc |-> RCProj(n.rc)]
-Logged(p) == [started |-> p.started, round |-> p.round, acc |-> p.acc, lpr |-> p.lpr, lpv |-> p.lpv,
+Logged(p) == [started |-> p.started, round |-> p.round, acc |-> Acc3(p.acc), lpr |-> p.lpr, lpv |-> p.lpv,
               decided |-> p.decided, dval |-> p.dval, prep |-> SRV(p.prep), comm |-> SRV(p.comm), rc |-> RCProj(RCFull(p.rc))]
 
 CanProc(n, stp) == ~stp /\ n.round < Cutoff
